@@ -2,11 +2,15 @@
   Lemmas for C15 (Davidson), object reuse: what `compute_with_guess` on a USED solver object reads of the state an earlier call
   left behind.  For arbitrary scalar / vector types and ALL kernels.
 
-  `compute_with_guess` resets the search space (`initialize_search_space`) and `niter_`, and nothing else: `m_ritz_pairs` and
-  `m_info` keep the values of the previous call until the loop body overwrites them.  The first trip round the loop overwrites
-  the four parallel arrays of `RitzPairs` (`compute_eigen_pairs`), then — unless the small eigenproblem failed — the flags
-  (`check_convergence`), and every exit of the loop body writes `m_info`.  The old Ritz pairs are READ only by a restart in the
-  first trip, which needs an initial space wider than `max_search_space_size`.
+  Since /repo 6587027 `compute_with_guess` begins with
+      m_ritz_pairs = RitzPairs<Scalar>();  m_info = CompInfo::NotComputed;
+      m_search_space.initialize_search_space(initial_space);  niter_ = 0;
+  i.e. it assigns EVERY non-constant data member of the object before the loop (`Dav.resetResults`, `Dav.initializeSearchSpace`).
+  The loop is therefore entered in a state (`start guess`) that is a function of the initial space alone: nothing of the
+  previous call — Ritz pairs, flags, status, search space, iteration count — can be read by this one, whatever `maxit`, the
+  width of the initial space (a restart in the first trip reads the EMPTY Ritz pairs) or the outcome of the first small
+  eigenproblem.  (Before the repair only the search space and `niter_` were reset and the equality below needed `maxit ≥ 1`,
+  no restart in the first trip and a first small eigenproblem that succeeds: findings F21, F21b, F21c.)
 -/
 import SpectraVerif.Proofs.C15Loop
 
@@ -15,116 +19,58 @@ open Dav
 
 variable {σ ν : Type} (K : Kern σ ν)
 
-/-- `mkPair` reads the basis and the cached products of the state only -/
-def mkPairBO (b o : List ν) : σ → List σ → Pair σ ν := mkPair K ⟨b, o, [], [], 0, .notComputed, []⟩
-theorem mkPair_eq (b o : List ν) (p : List (Pair σ ν)) (cv : List Bool) (n : Nat) (i : Info) (sz : List Nat) :
-    mkPair K ⟨b, o, p, cv, n, i, sz⟩ = mkPairBO K b o := rfl
+/-- the state in which `compute_with_guess(guess, …)` enters its loop: the search space holds the (copied) initial space and no
+    cached product, the Ritz pairs are a default-constructed `RitzPairs` (no pair, no flag), `info() == NotComputed`,
+    `num_iterations() == 0` -/
+def start (guess : List ν) : St σ ν :=
+  { basis := guess, opBasis := [], pairs := [], conv := [], niter := 0, info := .notComputed, sizes := [] }
 
-/-- `iterHead` never reads `info`: it passes it through -/
-theorem iterHead_info_passthrough (c : Cfg) (sel : Int) (tol : σ) (a : St σ ν) (i : Info) :
-    iterHead K c sel tol { a with info := i } =
-      ((iterHead K c sel tol a).1, { (iterHead K c sel tol a).2 with info := i }) := by
-  obtain ⟨b, o, p, cv, n, i0, sz⟩ := a
-  unfold iterHead
-  simp only [restart, updateOperatorBasisProduct, computeEigenPairs, sortPairs, checkConvergence, convFlags, smallMatrix, mkPair_eq]
-  split <;> split <;> simp
+/-- the prologue of `compute_with_guess` overwrites every member: from ANY state of the object the loop is entered in `start guess` -/
+theorem prologue_eq_start (guess : List ν) (s : St σ ν) :
+    ({ initializeSearchSpace guess (resetResults s) with niter := 0, sizes := [] } : St σ ν) = start guess := rfl
 
-/-- without a restart `iterHead` reads neither the Ritz pairs nor the flags nor `info` of the incoming state; the flags are
-    overwritten unless the small eigenproblem fails -/
-theorem iterHead_forgets (c : Cfg) (sel : Int) (tol : σ) (a : St σ ν) (p : List (Pair σ ν)) (cv : List Bool) (i : Info)
-    (hno : ¬ a.basis.length > c.maxSize) :
-    iterHead K c sel tol { a with pairs := p, conv := cv, info := i } =
-      match iterHead K c sel tol a with
-      | (none, s1) => (none, { s1 with conv := cv, info := i })
-      | (some b, s1) => (some b, { s1 with info := i }) := by
-  obtain ⟨b, o, p0, cv0, n, i0, sz⟩ := a
-  simp only at hno
-  unfold iterHead
-  simp only [hno, if_false, updateOperatorBasisProduct, computeEigenPairs, sortPairs, checkConvergence, convFlags, smallMatrix, mkPair_eq]
-  split <;> simp
+/-- `compute_with_guess` unfolded: the loop run from `start guess`, and the return expression evaluated on its result -/
+theorem computeWithGuess_eq (c : Cfg) (corr : List (Pair σ ν) → List ν) (guess : List ν) (sel : Int) (maxit : Nat) (tol : σ)
+    (s : St σ ν) :
+    computeWithGuess K c corr guess sel maxit tol s =
+      (loop K c corr sel tol maxit maxit (start guess), returnValue c (loop K c corr sel tol maxit maxit (start guess))) := rfl
 
-/-- the first small eigenproblem of a call: `SelfAdjointEigenSolver` on `basisᵀ (A basis)` -/
-def firstEigOk (a : St σ ν) : Bool := (K.eig (smallMatrix K (updateOperatorBasisProduct K a))).1
+/-- **the call forgets the object's past**: the result and the return value do not depend on the state the object was in -/
+theorem computeWithGuess_forgets (c : Cfg) (corr : List (Pair σ ν) → List ν) (guess : List ν) (sel : Int) (maxit : Nat) (tol : σ)
+    (s t : St σ ν) :
+    computeWithGuess K c corr guess sel maxit tol s = computeWithGuess K c corr guess sel maxit tol t := rfl
 
-theorem iterHead_none_iff (c : Cfg) (sel : Int) (tol : σ) (a : St σ ν) (hno : ¬ a.basis.length > c.maxSize) :
-    (iterHead K c sel tol a).1 = none ↔ firstEigOk K a = false := by
-  unfold iterHead firstEigOk
-  simp only [hno, if_false, updateOperatorBasisProduct, computeEigenPairs, sortPairs, checkConvergence, convFlags, smallMatrix]
-  split
-  · rename_i h; simp at h; simp [h]
-  · rename_i h; simp at h; simp [h]
+/-- the start state is the freshly constructed object with the initial space installed -/
+theorem start_eq_construct (guess : List ν) : (start guess : St σ ν) = initializeSearchSpace guess construct := rfl
 
-/-- once every member but `info` agrees, the rest of the loop agrees completely: each exit of the loop body writes `info`
-    (the loop cannot run out of fuel while `niter + fuel = maxit`, the last trip leaves through `NotConverging`) -/
-theorem loop_info_passthrough (c : Cfg) (corr : List (Pair σ ν) → List ν) (sel : Int) (tol : σ) (maxit fuel : Nat) (a : St σ ν) (i : Info)
-    (h : a.niter + fuel = maxit) (hf : 0 < fuel) :
-    loop K c corr sel tol maxit fuel { a with info := i } = loop K c corr sel tol maxit fuel a := by
-  induction fuel generalizing a with
+/-- `maxit = 0`: the loop body never runs, the object is left in `start guess` -/
+theorem loop_zero (c : Cfg) (corr : List (Pair σ ν) → List ν) (sel : Int) (tol : σ) (maxit : Nat) (s : St σ ν) :
+    loop K c corr sel tol maxit 0 s = s := by
+  unfold loop; rfl
+
+/-- with at least one iteration allowed every way out of the loop writes `m_info` (the loop cannot run out of fuel while
+    `niter + fuel = maxit`: the last trip leaves through `NotConverging`), so the status at exit is never `NotComputed` -/
+theorem loop_info_written (c : Cfg) (corr : List (Pair σ ν) → List ν) (sel : Int) (tol : σ) (maxit fuel : Nat) (s : St σ ν)
+    (h : s.niter + fuel = maxit) (hf : 0 < fuel) :
+    (loop K c corr sel tol maxit fuel s).info ≠ .notComputed := by
+  induction fuel generalizing s with
   | zero => omega
   | succ f ih =>
     unfold loop
-    rw [iterHead_info_passthrough]
-    have hfl := iterHead_fields K c sel tol a
-    rcases hh : iterHead K c sel tol a with ⟨r, s1⟩
+    have hfl := iterHead_fields K c sel tol s
+    rcases hh : iterHead K c sel tol s with ⟨r, s1⟩
     rw [hh] at hfl
+    simp only at hfl ⊢
     obtain ⟨_, hn, _, _⟩ := hfl
-    simp only at hn ⊢
     match r with
-    | none => rfl
-    | some true => rfl
+    | none => simp
+    | some true => simp
     | some false =>
       simp only
       split
-      · rfl
+      · simp
       · rename_i hne
-        have := ih { extendBasis K (corr s1.pairs) s1 with niter := (extendBasis K (corr s1.pairs) s1).niter + 1 }
+        exact ih { extendBasis K (corr s1.pairs) s1 with niter := (extendBasis K (corr s1.pairs) s1).niter + 1 }
           (by simp only [extendBasis, hn]; omega) (by omega)
-        simpa only [extendBasis] using this
-
-/-- **the loop forgets the previous call.**  Entering the loop with a space of at most `max` columns (no restart in the first
-    trip), at least one iteration allowed and a first small eigenproblem that succeeds: the state at exit does not depend on the
-    Ritz pairs, flags and status the object held before. -/
-theorem loop_forgets (c : Cfg) (corr : List (Pair σ ν) → List ν) (sel : Int) (tol : σ) (maxit fuel : Nat) (a : St σ ν)
-    (p : List (Pair σ ν)) (cv : List Bool) (i : Info)
-    (hno : ¬ a.basis.length > c.maxSize) (h : a.niter + fuel = maxit) (hf : 0 < fuel) (hE : firstEigOk K a = true) :
-    loop K c corr sel tol maxit fuel { a with pairs := p, conv := cv, info := i } = loop K c corr sel tol maxit fuel a := by
-  obtain ⟨f, rfl⟩ : ∃ f, fuel = f + 1 := ⟨fuel - 1, by omega⟩
-  unfold loop
-  rw [iterHead_forgets K c sel tol a p cv i hno]
-  have hnone := iterHead_none_iff K c sel tol a hno
-  have hfl := iterHead_fields K c sel tol a
-  rcases hh : iterHead K c sel tol a with ⟨r, s1⟩
-  rw [hh] at hfl hnone
-  obtain ⟨_, hn, _, _⟩ := hfl
-  simp only at hn hnone ⊢
-  match r with
-  | none => rw [hE] at hnone; simp at hnone
-  | some true => rfl
-  | some false =>
-    simp only
-    split
-    · rfl
-    · rename_i hne
-      have := loop_info_passthrough K c corr sel tol maxit f
-        { extendBasis K (corr s1.pairs) s1 with niter := (extendBasis K (corr s1.pairs) s1).niter + 1 } i
-        (by simp only [extendBasis, hn]; omega) (by omega)
-      simpa only [extendBasis] using this
-
-/-- the same without the hypothesis on the eigen-solver: if the first small eigenproblem FAILS the loop stops at once with
-    `NumericalIssue`, the Ritz pairs are those of the failed decomposition, and only the flags are the old ones -/
-theorem loop_forgets_numerical_issue (c : Cfg) (corr : List (Pair σ ν) → List ν) (sel : Int) (tol : σ) (maxit fuel : Nat) (a : St σ ν)
-    (p : List (Pair σ ν)) (cv : List Bool) (i : Info)
-    (hno : ¬ a.basis.length > c.maxSize) (hf : 0 < fuel) (hE : firstEigOk K a = false) :
-    loop K c corr sel tol maxit fuel { a with pairs := p, conv := cv, info := i } =
-      { loop K c corr sel tol maxit fuel a with conv := cv } ∧ (loop K c corr sel tol maxit fuel a).info = .numericalIssue := by
-  obtain ⟨f, rfl⟩ : ∃ f, fuel = f + 1 := ⟨fuel - 1, by omega⟩
-  unfold loop
-  rw [iterHead_forgets K c sel tol a p cv i hno]
-  have hnone := (iterHead_none_iff K c sel tol a hno).mpr hE
-  rcases hh : iterHead K c sel tol a with ⟨r, s1⟩
-  rw [hh] at hnone
-  simp only at hnone
-  subst hnone
-  exact ⟨rfl, rfl⟩
 
 end C15L
